@@ -90,6 +90,16 @@ class Source:
 
     def lookup(self, qual: str):
         """'nutree.node.Node.move_to' | 'nutree.common.call_predicate' -> (module, FunctionDef)."""
+        if ".<locals>." in qual:
+            # 'outer.<locals>.inner': a function defined in the body of `outer` (top level of the body, or nested there in turn)
+            outer, inner = qual.rsplit(".<locals>.", 1)
+            m, fd = self.lookup(outer)
+            if fd is None:
+                return None, None
+            for st in fd.body:
+                if isinstance(st, ast.FunctionDef) and st.name == inner:
+                    return m, st
+            return None, None
         parts = qual.split(".")
         if len(parts) == 2 and parts[0] == "lemma":
             return self.functions.get(qual, (None, None))
